@@ -271,6 +271,13 @@ func (f *frame) specCall(fn *ssa.Function, args []*Val) (*Val, error) {
 			}
 		}
 	}
+	// a spec function that reads the heap denotes a value over the ENTRY heap of the function under
+	// proof: it may only be used where the current heap still is the entry heap for what it reads
+	for k := range sym.Reads {
+		if cur, ok := f.st.m[k]; ok && cur.String() != Const("init!"+k, cur.Sort).String() {
+			return nil, unsupported("spec function %s reads heap location %s, which has been modified at this point (heap-reading spec functions are evaluated over the entry heap) [now %s]", fn.Name(), k, truncate(cur.String(), 120))
+		}
+	}
 	// a non-recursive spec function applied to a string literal is expanded in place, so that
 	// comparisons with the literal are simplified (length and elements stated explicitly)
 	if litArg && !sym.Recursive && !sym.inProg && !sym.Uninterpreted && f.depth < 12 {
